@@ -2,6 +2,8 @@
 included).  E1 over (input, read case) x every equal-precision writer
 configuration within the deviation bound; each output is read back and
 compared with the output of the default configuration."""
+import itertools
+
 import lasio
 
 from ..core import canon, e1, inputs, roundtrip
@@ -78,6 +80,8 @@ def check_point(pt, only=None):
     for ci, cfg in enumerate(cfgs[1:], start=1):
         if only is not None and ci != only:
             continue
+        if isinstance(only, str):
+            break
         evals += 3
         try:
             t, got = one(text, case, cfg)
@@ -90,6 +94,27 @@ def check_point(pt, only=None):
         if got != ref:
             vio.append(V(pt, name, text, cfg, ci, "content-differs", "same content as default output",
                          canon.diff_tags(ref, got), t))
+    # the SAME object written with one configuration and then with another: what the second output holds does not
+    # depend on what was written before (no layout remembered from the first write)
+    if only in (None, "sameobj") or (isinstance(only, str) and only.startswith("sameobj:")):
+        keyc = [dict(cfgs[0]), dict(cfgs[0], version=1.2), dict(cfgs[0], version=2.0), dict(cfgs[0], wrap=True), dict(cfgs[0], wrap=False)]
+        for ia, ib in itertools.permutations(range(len(keyc)), 2):
+            tagab = "sameobj:%d>%d" % (ia, ib)
+            if isinstance(only, str) and only.startswith("sameobj:") and only != tagab:
+                continue
+            try:
+                lw = lasio.read(text, mnemonic_case=case)
+                roundtrip.write_text(lw, keyc[ia])
+                t2 = roundtrip.write_text(lw, keyc[ib])
+                got = roundtrip.tag(lasio.read(t2, mnemonic_case=case), SKIP)
+                evals += 3
+            except Exception as e:
+                vio.append(V(pt, name, text, keyc[ib], tagab, "second-config-raises", "same content as default output",
+                             "%s: %s" % (type(e).__name__, str(e)[:160]), None))
+                continue
+            if got != ref:
+                vio.append(V(pt, name, text, keyc[ib], tagab, "content-differs-after-earlier-write", "same content as default output",
+                             {"first written with": {k: v for k, v in keyc[ia].items() if v != cfgs[0].get(k)}, "diff": canon.diff_tags(ref, got)}, t2))
     # the in-memory WRAP item edited by value between two wrapped writes of the same object: write(wrap=True) decides
     # the layout AND the WRAP item, whatever the item said before
     if only in (None, "wrapedit"):
